@@ -7,13 +7,16 @@ HDR_MODEL_MAX = 1200      # the wrapper length (calculate_lz13_header) is comput
 
 class C09(LZCheckMixin, PropertyCheck):
     pid = "C09"
+    source_tables = ["LZ13_CONSTS", "LZ13_HEADER_CONSTS", "LZ_DECODE_CONSTS"]   # tables / constants regenerated from /repo's source (gen/srctables.py)
     release_too = True
     rule = ("streams: as C08 through LZ13CompressionFormat (all strings over 2 and 3 letters up to a bound, every run length 0..300/700 "
             "- covering the length forms <=16, 17..272, >272 -, long runs around 4096, structured random inputs <= 6 KiB against the model, "
-            "larger ones oracle only), the empty input, both build profiles. The three wrapper length bytes are compared with the model for "
+            "larger ones oracle only), repeats that continue beyond 65808 bytes (runs and short periods of 65536..140000 bytes, blank regions), "
+            "a slice of the family through the enum CompressionFormat, the empty input, both build profiles. The three wrapper length bytes are compared with the model for "
             "inputs <= %d bytes and masked above. Non-trivial = the stream contains a back-reference; distinct = distinct input." % HDR_MODEL_MAX)
     assumptions = ["A-std: Vec, slices and integer casts behave as documented",
-                   "calculate_lz13_header is modelled for inputs shorter than 2^31 bytes (Wrapping<i32> positions do not wrap)",
+                   "calculate_lz13_header: the extracted list-position model is faithful below 2^31 bytes; the machine-level model (wrapping i32 positions, "
+                   "any length) is proved equal to it there and total everywhere, but above 2^31 it is tied to the source by reading only (such inputs cannot be run)",
                    "an allocation failure of the reservation (runtime) is outside the model; the harness observes it as ABORT"]
 
     def generate(self, rng, tier):
@@ -63,7 +66,7 @@ TB = ("Trusted: Coq 8.16.1 kernel (vm_compute, no native_compute), no axioms (Pr
       "ExtrOcamlBasic extraction + hand-written OCaml driver, the Rust harness and Python generators/oracles. ")
 
 MANIFEST = dict(
-    text="(filled in below)",
-    note=TB,
-    technique="Coq proof + extracted-model differential check (debug and release builds) + independent Python stream parser as oracle",
-    ref="DESIGN.md section 4 (C09)")
+    text="Theorems (Coq 8.16, closed under the global context) about executable Gallina models of LZ13CompressionFormat::compress (shared match search and greedy loop with look-ahead 0x1000, the three LZ11 length forms in i32 arithmetic, the 0x13 wrapper, calculate_lz13_header, the reservation, after the repair of F12) and of the library's decoder: for EVERY non-empty byte string shorter than 2^24 and either arithmetic profile the result is Ok(0x13, three bytes, s) where a strict LZ11 parser written from the format description accepts s completely with the input length (either header form, flag groups, every reference in one of the three length forms with displacement 1-4096 reaching only into produced data, nothing left over) and its tokens expand to the input; LZ13CompressionFormat::decompress returns the input (any profile combination), also through the enum CompressionFormat; the empty input compresses and decompresses to itself. TOTALITY at full strength: a second, machine-level model of calculate_lz13_header (seven wrapping i32 variables, `as usize` sign extension, checked slice indexing), of the reservation (usize additions in a profile, Vec::reserve's capacity check) and of the main loop with get_occurrence_length (checked indexing, usize arithmetic in a profile) is proved equal to the first model below 2^31 bytes and proved to return Ok for EVERY input shorter than 2^62 bytes - no panic, no Err, the empty input included; up to isize::MAX the only other outcome is Vec::reserve's capacity-overflow panic when 12+n+(n+7)/8 > isize::MAX (an input that cannot exist). The models are tied to /repo on every run as for C08 (both build profiles; the three wrapper length bytes are compared for inputs <= 1200 bytes, masked above); an independent Python strict parser/expander judges every implementation output.",
+    note=TB + 'Modelled, not verified (A-std): Vec, slices, casts, Wrapping<i32>, 64-bit usize. Inputs of 2 GiB and more cannot be run: above 2^31 the machine-level model is tied to src/lz13.rs:93-160 by reading only. An allocation failure of the reservation aborts the process and is outside the model (the harness would record ABORT). The value of the wrapper length bytes has no theorem (the property does not constrain it). notes/lz.md lists 8 mutations of /repo and the seeded change C09-1, all reported by the quick check.',
+    technique='Coq proof (as C08; machine-level refinement of the i32 header computation; totality by invariant) + extracted-model differential check (debug and release builds) + independent Python stream parser as oracle',
+    ref='DESIGN.md section 4 (C09); notes/lz.md')
